@@ -74,7 +74,7 @@ def runPipe (env : Env) (p : Prog) : PipeM.St → List DOp → PipeM.St × List 
       | .close => PipeM.step env p s .close
       | .cancel => PipeM.step env p s .cancel
       | .iter (some n) => PipeM.nextN env p n s
-      | .iter none => PipeM.nextN env p (p.steps.length + 2) s
+      | .iter none => PipeM.nextN env p (p.steps.length + 1) s
     let (s'', es) := runPipe env p s' r
     (s'', (evs e, s'.writes - s.writes) :: es)
 
@@ -88,7 +88,7 @@ def runHttp (c : HttpM.Cfg) (p : Prog) : HttpM.St → List DOp → HttpM.St × L
       | .close => HttpM.step c p s .close
       | .cancel => HttpM.step c p s .cancel
       | .iter (some n) => HttpM.nextN c p n s
-      | .iter none => HttpM.nextN c p (s.pend.length + p.steps.length + 3) s
+      | .iter none => HttpM.nextN c p (s.pend.length + p.steps.length + 1) s
     let (s'', es) := runHttp c p s' r
     (s'', (evs e, s'.reqs - s.reqs) :: es)
 
